@@ -126,6 +126,10 @@ IdxT(s, t) == PosOf(s, t, 1)
 Apply(op, h) ==
   LET x == h.exts  p == Pt(h)  px == p.exts IN
   CASE op = "none"        -> h
+    \* -- structural damage (C04 truncations, C08): applied by the concretiser at EVERY length-prefixed node of the
+    \*    outer hello ("structOuter") or of the encoded inner hello before sealing ("structInner"); kinds: declared
+    \*    length +1, -1, content truncated by one byte
+    [] op \in {"structOuter", "structInner"} -> h
     \* -- tampering after sealing (C02): anything that changes the outer hello or the payload
     [] op = "swap1"       -> [h EXCEPT !.exts = SwapAt(x, 1)]
     [] op = "swapLast"    -> [h EXCEPT !.exts = SwapAt(x, Len(x)-1)]
@@ -152,6 +156,7 @@ Apply(op, h) ==
     [] op = "badEchType"  -> [h EXCEPT !.ech = BadEch]
     [] op = "emptyEnc"    -> [h EXCEPT !.ech.enc = [to |-> "empty", id |-> "e0"]]
     [] op = "dupEchBefore" -> LET q == IdxT(x, "ech") IN Reseal([h EXCEPT !.exts = SubSeq(x, 1, q-1) \o << E("echdup", "D") >> \o SubSeq(x, q, Len(x))], p)
+    [] op = "dupEchInnerBefore" -> LET q == IdxT(x, "ech") IN Reseal([h EXCEPT !.exts = SubSeq(x, 1, q-1) \o << E("echdupi", "D") >> \o SubSeq(x, q, Len(x))], p)
     [] op = "dupEchAfter"  -> Reseal([h EXCEPT !.exts = x \o << E("echdup", "D") >>], p)
     [] op = "sniNotPublic" -> LET h1 == [h EXCEPT !.exts = SetV(x, IdxT(x, "sni"), "other")] IN Reseal(h1, p)
     [] op = "noOuterSni"  -> LET h1 == [h EXCEPT !.exts = DropAt(x, IdxT(x, "sni"))] IN Reseal(h1, p)
@@ -180,7 +185,7 @@ Tampers == {"swap1", "swapLast", "drop2", "addExt", "changeVal", "changeSid", "c
 PassOps == {"noEch", "grease", "no13", "noSv"}
 \* the alert class each illegal hello must be answered with
 ClassOf(op) ==
-  CASE op \in {"dupEchBefore", "dupEchAfter", "eoeInOuter", "innerTypeInOuter", "badEchType", "emptyEnc", "sniNotPublic", "noOuterSni", "noInnerEch", "outerTypeInInner",
+  CASE op \in {"dupEchBefore", "dupEchInnerBefore", "dupEchAfter", "eoeInOuter", "innerTypeInOuter", "badEchType", "emptyEnc", "sniNotPublic", "noOuterSni", "noInnerEch", "outerTypeInInner",
                "innerNo13", "innerNoSv", "nonZeroPad", "eoeOutOfOrder", "eoeRepeated", "eoeMissing", "eoeRefsEch", "eoeRefsEoe", "eoeTwice"} -> "illegal_parameter"
     [] op \in {"eoeOdd", "eoeBadLen"} -> "decode_error"
     [] OTHER -> "none"
@@ -222,7 +227,9 @@ Pass     == /\ res' = [kind |-> "pass", sni |-> Sni(hello), alpn |-> Alpn(hello)
 \* ech.go:150-166 and the parse-level rule on ECHClientHello.type
 StepOuter ==
   /\ pc = "outer"
-  /\ IF hello.ech.type = "bad" \/ HasT(hello, "echdup") THEN Abort("illegal_parameter") /\ UNCHANGED <<ci>>   \* RFC 8446 4.2: no duplicates
+  /\ IF op = "structOuter" THEN res' = [kind |-> "noaccept"] /\ pc' = "done" /\ UNCHANGED ci   \* damaged in transit: the AAD cannot match
+     ELSE IF op = "structInner" THEN res' = [kind |-> "any"] /\ pc' = "done" /\ UNCHANGED ci   \* only totality is specified
+     ELSE IF hello.ech.type = "bad" \/ HasT(hello, "echdup") \/ HasT(hello, "echdupi") THEN Abort("illegal_parameter") /\ UNCHANGED <<ci>>   \* RFC 8446 4.2: no duplicates
      ELSE IF HasT(hello, "eoe") THEN Abort("illegal_parameter") /\ UNCHANGED <<ci>>
      ELSE IF Keys # <<>> /\ hello.ech.type = "inner" THEN Abort("illegal_parameter") /\ UNCHANGED <<ci>>
      ELSE IF ~Tls13(hello) \/ hello.ech.type # "outer" \/ Keys = <<>> THEN Pass /\ UNCHANGED <<ci>>
